@@ -390,7 +390,14 @@ pub fn run_session<C: Autocomplete + Help>(
         }
     };
 
-    let names: Vec<String> = cfg.set.names();
+    // pform & 0x10: the application passes another command set with every line (the set is a type parameter of each
+    // process_byte call): the set in force follows the number of Enters seen so far
+    let switching = cfg.pform & 0x10 != 0;
+    const CYCLE: [SetKind; 5] = [SetKind::FixA, SetKind::Raw, SetKind::FixG, SetKind::FixU, SetKind::FixA];
+    let mut cur_set = cfg.set;
+    let mut lines_done = 0usize;
+    let mut last_was_enter = false;
+    let mut names: Vec<String> = cfg.set.names();
     let mut names_help = names.clone();
     names_help.push("help".to_string());
 
@@ -439,6 +446,14 @@ pub fn run_session<C: Autocomplete + Help>(
 
     for (i, op) in ops.iter().enumerate() {
         res.ops_run = i + 1;
+        if switching && last_was_enter {
+            lines_done += 1;
+            cur_set = CYCLE[(lines_done + cfg.cmd) % CYCLE.len()];
+            names = cur_set.names();
+            names_help = names.clone();
+            names_help.push("help".to_string());
+            rep.count("session.command_set_switched");
+        }
         let pre = rig.editor();
         let pre_rows = if matches!(op, Op::Write(_)) && on(P_C13) { Some((term.all_rows_trimmed(), term.row)) } else { None };
         let log0 = rig.proc.log.len();
@@ -446,6 +461,7 @@ pub fn run_session<C: Autocomplete + Help>(
             Op::Byte(b) => shadow_accept(&mut shadow, *b),
             _ => Shadow::None,
         };
+        last_was_enter = matches!(key, Shadow::Key(Key::Enter));
         // what the user sees and what the edit history amounts to, just before an Enter (C01)
         let (visible_pre, ideal_pre): (Option<String>, Option<String>) = if key == Shadow::Key(Key::Enter) && on(P_C01) {
             let row: String = term.rows[term.row].iter().collect();
@@ -459,6 +475,7 @@ pub fn run_session<C: Autocomplete + Help>(
             found!("C02", P_C02, "decoder-emitted-illformed", illformed_class(bytes), i, "decoder passed {} on as a character", show_bytes(bytes));
         }
         let result = match op {
+            Op::Byte(b) if switching => rig.byte_set(cur_set, *b),
             Op::Byte(b) => rig.byte(*b),
             Op::Write(c) => rig.write(c),
             Op::SetPrompt(p) => rig.set_prompt(*p),
